@@ -224,6 +224,26 @@ where
                         _ => return Outcome::fail(json!({}), "verify_and_decrypt of a reference-made proof fails"),
                     }
                     o.extra += 2;
+                    // the same protocol over a caller-supplied message generator (trait-level API)
+                    let g2 = hm * sc::<C>(3) + <C as Pairing>::PublicKey::generator();
+                    let msc = sc::<C>(geti(v, "m"));
+                    let sealed = <C as BlsElGamal>::seal_scalar_with_proof(pk.0, msc, Some(g2), None, rand_chacha::ChaCha20Rng::seed_from_u64(rng.gen()));
+                    match sealed {
+                        Ok((c1, c2, mp, bp, ch)) => {
+                            if <C as BlsElGamal>::verify_proof(pk.0, Some(g2), c1, c2, mp, bp, ch).is_err() {
+                                return Outcome::fail(json!({}), "honest proof over a caller-supplied generator is rejected");
+                            }
+                            match <C as BlsElGamal>::verify_and_decrypt(lib.sk::<C>(k).0, Some(g2), c1, c2, mp, bp, ch) {
+                                Ok(d) if d == g2 * msc => {}
+                                _ => return Outcome::fail(json!({}), "verify_and_decrypt over a caller-supplied generator fails"),
+                            }
+                            if <C as BlsElGamal>::verify_proof(pk.0, None, c1, c2, mp, bp, ch).is_ok() {
+                                return Outcome::fail(json!({}), "a proof over another generator verifies for the default generator");
+                            }
+                        }
+                        Err(e) => return Outcome::fail(json!({}), format!("seal_scalar_with_proof with a generator refused: {e}")),
+                    }
+                    o.extra += 3;
                 }
             } else {
                 let r = p.verify_and_decrypt(&lib.sk::<C>(geti(v, "k2")));
